@@ -278,3 +278,125 @@ def replay(rep):  # noqa: F811
 def _norm_raw(r):
     v, d = (r.split(' | ') + [''])[:2] if ' | ' in r else (r.rstrip(' |'), '')
     return v.strip() + ' | ' + _norm_dims(d)
+
+
+# ---------------------------------------------------------------------------
+# Unit-list witness search (C09): laws of the decomposition checked on the real code
+_LEN = {'m': _F(1), 'ft': _F(3048, 10000), 'inch': _F(254, 10000), 'yard': _F(9144, 10000), 'mile': _F(1609344, 1000), 'cm': _F(1, 100)}
+_TIME = {'second': _F(1), 'minute': _F(60), 'hour': _F(3600), 'day': _F(86400), 'week': _F(604800), 'year': _F(31556925974678, 1000000)}
+
+
+def _check_parts(v, names, table, text):
+    """returns a reason string if the PARTS line violates the decomposition laws"""
+    parts_line = [l for l in text.splitlines() if l.startswith('PARTS ')]
+    if not parts_line:
+        return 'no PARTS in reply: ' + text.splitlines()[0]
+    items = [x.strip() for x in parts_line[0][6:].split(';')]
+    if len(items) != len(names):
+        return 'expected %d parts, got %d' % (len(names), len(items))
+    vals = []
+    for it in items:
+        num = it.split(' ')[0]
+        if '/' not in num or num.startswith('float') or num.startswith('none'):
+            return 'part is not an exact rational: ' + it
+        n, d = num.split('/')
+        vals.append(_F(int(n), int(d)))
+    total = sum(p * table[u] for p, u in zip(vals, names))
+    if total != v:
+        return 'sum(part_i * u_i) = %s differs from the value %s' % (total, v)
+    for i, p in enumerate(vals[:-1]):
+        if p.denominator != 1:
+            return 'part %d (%s) is not an integer' % (i, p)
+    for i, p in enumerate(vals):
+        if p != 0 and (p > 0) != (v > 0):
+            return 'part %d (%s) does not share the sign of the value' % (i, p)
+    rem = v
+    for i, (p, u) in enumerate(list(zip(vals, names))[:-1]):
+        rem = rem - p * table[u]
+        if abs(rem) >= abs(table[u]):
+            return 'remainder %s after %s is not smaller than the unit' % (rem, u)
+    return None
+
+
+def _unitlist_witness(o):
+    if build_core() != 0:
+        return None
+    cases = []
+    for v in [_F(37, 10), _F(-37, 10), _F(1), _F(100), _F(-1609344, 1000), _F(0), _F(5, 2)]:
+        for names in (['ft', 'inch'], ['inch', 'ft'], ['yard', 'ft', 'inch'], ['mile', 'yard', 'ft', 'inch'], ['ft'], ['m', 'cm']):
+            cases.append((v, names, _LEN, '%s m' % _lit(v), None))
+    for v in [_F(-5400), _F(100000), _F(90061), _F(1, 1000), _F(-1, 1000)]:
+        for names in (['hour', 'minute', 'second'], ['hour', 'second', 'minute'], ['day', 'hour', 'minute', 'second']):
+            cases.append((v, names, _TIME, '%s s' % _lit(v), None))
+    # refused lists
+    bad = [('1 m -> ft;inch;hour', None), ('1 m -> ft;hour', None), ('1 mile -> yard;ft;hour;minute', None), ('1 s -> ft;inch', None),
+           ('1 m -> zilch;m', 'zilch 0 m'), ('1 m -> m;zilch', 'zilch 0 m')]
+    for q, defs in bad:
+        args = (['--defs', defs] if defs else []) + [q]
+        rc, so, se, dt = run([QUERY_BIN] + args, timeout=20)
+        body = so.split('> ' + q, 1)[1].strip() if ('> ' + q) in so else so
+        if not body.startswith('ERR'):
+            return {'replayer': 'unitlist', 'input': {'query': q, 'defs': defs, 'expected': 'ERR'}, 'output': body, 'why': 'expected a refusal, got: ' + body.splitlines()[0],
+                    'cmd': ' '.join([QUERY_BIN] + ['%r' % a for a in args])}
+    for v, names, table, lhs, defs in cases:
+        q = '%s -> %s' % (lhs, ';'.join(names))
+        (ln, text, raw) = run_queries([q])[0]
+        why = text.splitlines()[0] if (text.startswith('PANIC') or text.startswith('TIMEOUT')) else _check_parts(v, names, table, text)
+        if why:
+            return {'replayer': 'unitlist', 'input': {'query': q, 'defs': None, 'value': str(v), 'units': names}, 'output': text, 'why': why, 'cmd': '%s %r' % (QUERY_BIN, q)}
+    # the automatic duration breakdown
+    for v in [_F(-5400), _F(100000), _F(90061), _F(31556926), _F(-1, 1000)]:
+        q = '%s s' % _lit(v)
+        (ln, text, raw) = run_queries([q])[0]
+        names = ['year', 'week', 'day', 'hour', 'minute', 'second']
+        if 'PARTS' in text:
+            why = _check_parts(v, names, _TIME, text)
+            if why:
+                return {'replayer': 'unitlist', 'input': {'query': q, 'defs': None, 'value': str(v), 'units': names}, 'output': text, 'why': why, 'cmd': '%s %r' % (QUERY_BIN, q)}
+    return None
+
+
+_fw2 = find_witness
+
+
+def find_witness(o, rep):  # noqa: F811
+    slot = (o.get('slot') or '')
+    if slot.startswith('to_list') or slot == 'Numeric::div_rem':
+        w = _unitlist_witness(o)
+        if w:
+            return w
+    return _fw2(o, rep)
+
+
+_rp2 = replay
+
+
+def replay(rep):  # noqa: F811
+    w = rep.get('replay') or {}
+    if w.get('replayer') == 'unitlist':
+        if build_core() != 0:
+            return 0
+        i = rep['input']
+        args = (['--defs', i['defs']] if i.get('defs') else []) + [i['query']]
+        rc, so, se, dt = run([QUERY_BIN] + args, timeout=20)
+        print(so)
+        body = so.split('> ' + i['query'], 1)[1].strip() if ('> ' + i['query']) in so else so
+        if i.get('expected') == 'ERR':
+            bad = not body.startswith('ERR')
+        else:
+            table = _TIME if i['units'][0] in _TIME else _LEN
+            why = body.splitlines()[0] if body.startswith('PANIC') else _check_parts(_F(i['value']), i['units'], table, body)
+            bad = bool(why)
+            print('law check: %s' % why)
+        print('replay: %s' % ('violation reproduced on the real code' if bad else 'not reproduced'))
+        return 1 if bad else 0
+    return _rp2(rep)
+
+
+def search_family(fam, prop):
+    """bounded replay search used when a unit is undecided"""
+    if fam == 'unitlist':
+        return _unitlist_witness({})
+    if fam == 'arith':
+        return _arith_witness({'slot': ''}, budget=1500)
+    return None
